@@ -46,7 +46,7 @@ static void put_val(int32 nt, unsigned char *dst, const char *s)
 {
     long long v = strtoll(s, NULL, 10);
     unsigned long long u = strtoull(s, NULL, 10);
-    switch (nt) {
+    switch (nt & 0xff) { /* memory image is the same for the standard, native and little-endian flavours */
     case DFNT_INT8: { int8 x = (int8)v; memcpy(dst, &x, 1); break; }
     case DFNT_CHAR8: case DFNT_UCHAR8: case DFNT_UINT8: { uint8 x = (uint8)v; memcpy(dst, &x, 1); break; }
     case DFNT_INT16: { int16 x = (int16)v; memcpy(dst, &x, 2); break; }
@@ -61,7 +61,7 @@ static void put_val(int32 nt, unsigned char *dst, const char *s)
 
 static void print_val(int32 nt, const unsigned char *src)
 {
-    switch (nt) {
+    switch (nt & 0xff) {
     case DFNT_INT8: { int8 x; memcpy(&x, src, 1); printf(" %d", (int)x); break; }
     case DFNT_CHAR8: case DFNT_UCHAR8: case DFNT_UINT8: { uint8 x; memcpy(&x, src, 1); printf(" %u", (unsigned)x); break; }
     case DFNT_INT16: { int16 x; memcpy(&x, src, 2); printf(" %d", (int)x); break; }
